@@ -146,6 +146,7 @@ func VerifH18b() {
 	var keptQueries []string
 	var keptCopies [][]byte
 	var keptParam, keptParamCopy []byte
+	var keptParams []Parameter // the parameter list itself, as the handler received it
 	parse := func(ctx context.Context, query string) (PreparedStatements, error) {
 		keptQueries = append(keptQueries, query)
 		keptCopies = append(keptCopies, append([]byte{}, query...))
@@ -161,6 +162,7 @@ func VerifH18b() {
 				return errVerifExec // abandon the stream without reading it
 			}
 			if len(params) == 1 && keptParamCopy == nil {
+				keptParams = params
 				keptParam = params[0].Value()
 				keptParamCopy = append([]byte{}, keptParam...)
 			}
@@ -202,10 +204,13 @@ func VerifH18b() {
 		vMsgBytes('B', vCat(vCStr(nil), vCStr(nil), vU16(0), vU16(1), vU32(2), pv, vU16(0))),
 		vMsgBytes('E', vCat(vCStr(nil), vU32(0))),
 		vMsgBytes('S', nil),
+		// the same portal is bound again, with another value of the same length
+		vMsgBytes('B', vCat(vCStr(nil), vCStr(nil), vU16(0), vU16(1), vU32(2), nondetBytes(2), vU16(0))),
+		vMsgBytes('S', nil),
 		vMsgBytes('Q', vCStr([]byte("second"))),
 		vMsgBytes('Q', vCStr([]byte("third"))),
 	)
-	steps += 6
+	steps += 8
 	sizes := []int{0, 1, 3, 4080, 4090, 4096, 4097, L, L + 1, L + 7}
 	for k := 0; k < K; k++ {
 		n := sizes[vChoose(len(sizes))]
@@ -241,6 +246,7 @@ func VerifH18b() {
 		vAssert("retained-query-unchanged", vEqStr(keptQueries[i], string(keptCopies[i])))
 	}
 	vAssert("retained-parameter-unchanged", vEqBytes(keptParam, keptParamCopy))
+	vAssert("retained-parameter-list-unchanged", len(keptParams) == 1 && vEqBytes(keptParams[0].Value(), keptParamCopy))
 }
 
 // ---------------------------------------------------------------------------
